@@ -282,13 +282,13 @@ class Ctx:
         self.notes = []
         self.scratch = tempfile.mkdtemp(prefix="nixverif-%s-" % prop)
         self.changed_files = changed_anchor_files(prop)
-        self.boost = 3 if self.changed_files else 1
+        self.boost = 2 if self.changed_files else 1
 
     def quick(self):
         return self.tier == "quick"
 
     def budget(self, quick, thorough):
-        """tier budget; in the quick tier a changed anchored source file triples it (capped by the thorough budget)"""
+        """tier budget; in the quick tier a changed anchored source file doubles it (capped by the thorough budget)"""
         if self.tier != "quick":
             return thorough
         if self.boost > 1 and isinstance(quick, (int, float)) and isinstance(thorough, (int, float)) \
